@@ -35,6 +35,17 @@ fn check(cond: bool, msg: &str) {
 
 fn main() {
     let a: Vec<String> = std::env::args().collect();
+    if a.len() >= 2 && a[1] == "overflow_child" {
+        // count preset past the limit; a clone must kill the process. Coming back here at all is the violation.
+        std::panic::set_hook(Box::new(|_| {}));
+        let h = Arc::new(7usize);
+        let cnt = h.heap_ptr() as *mut usize; // repr(C) ArcInner { count, data } (C05/C11)
+        unsafe { *cnt = (isize::MAX as usize) + 2 };
+        let r = catch_unwind(AssertUnwindSafe(|| std::mem::forget(h.clone())));
+        println!("SURVIVED caught_panic={}", r.is_err());
+        std::mem::forget(h);
+        std::process::exit(43);
+    }
     let (api, effect, outcome, c) = (a[1].as_str(), a[2].as_str(), a[3].as_str(), a[4].parse::<usize>().unwrap());
     std::panic::set_hook(Box::new(|_| {}));
     let panics = outcome == "panic";
@@ -87,6 +98,19 @@ fn main() {
             drop(survivors);
             drop(others);
             check(DROPS[0].load(SeqCst) == 1, "original value not destroyed exactly once");
+        }
+        "Arc::clone_overflow" => {
+            // run the child with an unwritable stderr (any diagnostics the library tries to print must not turn the
+            // abort into a catchable panic) and with a normal one
+            for err in ["/dev/full", "/dev/null"] {
+                let f = std::fs::OpenOptions::new().write(true).open(err).unwrap();
+                let out = std::process::Command::new(std::env::current_exe().unwrap())
+                    .arg("overflow_child").stderr(f).output().unwrap();
+                if out.status.code() == Some(43) {
+                    fail(&format!("the process survived a clone past the limit (stderr={err}): {}", String::from_utf8_lossy(&out.stdout).trim()));
+                }
+                check(out.status.code().is_none(), "child neither aborted nor survived?");
+            }
         }
         "Arc::with_raw_offset_arc" => {
             let h = Arc::new(Canary(0));
